@@ -687,6 +687,10 @@ def pending_flatten_risky(pp, e, seen=None):
             return True  # Or/Each flattening: not covered by a theorem
         if isinstance(e, pp.And) and len(e.exprs) == 2:
             for pos, N in ((0, e.exprs[0]), (1, e.exprs[-1])):
+                if isinstance(N, pp.And) and not N.parseAction and N.resultsName is None and not N.exprs:
+                    # an EMPTY nested And (DelimitedList(max=1): content + (delim + content) * (0, 0)) raises
+                    # IndexError -> ParseException until streamline flattens it away; flattenHyp is false for it
+                    return True
                 if isinstance(N, pp.And) and not N.parseAction and N.resultsName is None and N.exprs:
                     stops = [type(x) is pp.And._ErrorStop for x in N.exprs]
                     if pos == 0 and any(stops):
@@ -1099,7 +1103,11 @@ def run(ctx):
     run_pools(ctx, gen_pool_jobs(ctx, ctx.budget(500, 5000) * mult))
     # PART C: in-place operations applied to composites / copies AFTER composition (harness/props/c12_hist.py)
     from . import c12_hist
-    c12_hist.run_hist(ctx, c12_hist.gen_hist_jobs(ctx, ctx.budget(700, 7000) * mult))
+    c12_hist.run_hist(ctx, c12_hist.gen_hist_jobs(ctx, ctx.budget(700, 7000)))
+    if ctx.broken and not ctx.fail_inputs:
+        # a broken obligation / tie is not a violation: search deeper for a failing input
+        c12_hist.run_hist(ctx, c12_hist.gen_hist_jobs(ctx, ctx.budget(700, 7000) * 3, tag="hist-deep"),
+                          stream="oracle:in-place-after-composition(deep)")
     ctx.assumptions.append("C12: results names, Each, Or-flattening and the value semantics of the real object graph are decided "
                            "by the real-code oracle; the theorems speak about the parse model and the table transformations")
 
